@@ -101,11 +101,18 @@ func verifClash(obs interface{}, obsP bool, last interface{}, lastP bool, des in
 		return ""
 	}
 	// observed is a list
-	if !verifIsList(kd) {
-		return "clash/des=" + kd + "/obs=list"
-	}
-	ol, dl := obs.([]interface{}), des.([]interface{})
+	ol := obs.([]interface{})
 	ll, _ := last.([]interface{})
+	if kd == gen.KNull && verifAssocKey(ol, ll) == "" {
+		return "" // null replaces an atomic list
+	}
+	if kd == gen.KNull {
+		return "clash/des=null/obs=listmap"
+	}
+	if !verifIsList(kd) {
+		return "clash/des=" + kd + "/obs=" + ko
+	}
+	dl := des.([]interface{})
 	key := verifAssocKey(ol, ll, dl)
 	if key == "" {
 		return ""
